@@ -281,6 +281,12 @@ class Parser:
                 not hints_file_compiled.exists()
                 or grammar_file.stat().st_mtime > hints_file_compiled.stat().st_mtime
                 or hints_file.stat().st_mtime > hints_file_compiled.stat().st_mtime
+                # Hints are keyed by LR state ids so they must be recompiled if
+                # any of the imported grammar files has changed.
+                or any(
+                    Path(g_file).stat().st_mtime > hints_file_compiled.stat().st_mtime
+                    for g_file in self.grammar.imported_files
+                )
             ):
                 # Compilation is needed
                 compiled_hints = compile_and_save(hints_file, hints_file_compiled)
